@@ -3,6 +3,8 @@ From Coq Require Import List NArith String Bool.
 From Gen Require Import Tables.
 From Model Require Import Base Names Flt Matches Detect.
 From Proofs Require Import FloatLaws DetectWindow.
+From Model Require Import Md.
+From Proofs Require Import MdFacts.
 From Model Require Import F32.
 From Proofs Require Import F32Laws.
 Open Scope N_scope.
@@ -53,3 +55,22 @@ Theorem C13_chaos_function_binary32 :
               /\ fge F32ops (chaos_fn F32ops R t (threshold F32ops cfg)) (threshold F32ops cfg) = false.
 Proof. intros R. exact (C13_chaos_function F32ops R F32_FloatLaws). Qed.
 Print Assumptions C13_chaos_function_binary32.
+
+Import ListNotations.
+Open Scope list_scope.
+
+(* the mess ratio of a chunk (Model/Md.v) is the detector-bank sum after a prefix of "text + newline":
+   a function of the text, the per-character oracles and -- through the position of the early exit only --
+   the threshold; with a threshold no checkpoint reaches it is the full-scan sum *)
+Theorem C13_mess_is_bank_sum_of_a_prefix :
+  forall FO K O t thr,
+    exists pre, (exists post, t ++ [10] = pre ++ post)
+      /\ mess_ratio FO K O t thr = bank_sum FO K (fold_left (fun b c => bank_feed FO K O b (mk_char O c)) pre bank_init).
+Proof. intros. unfold mess_ratio. apply scan_is_a_bank_sum. Qed.
+Print Assumptions C13_mess_is_bank_sum_of_a_prefix.
+
+Theorem C13_mess_full_scan_when_threshold_not_reached :
+  forall FO K O t thr, (forall b, fge FO (bank_sum FO K b) thr = false) ->
+    mess_ratio FO K O t thr = bank_sum FO K (fold_left (fun b c => bank_feed FO K O b (mk_char O c)) (t ++ [10]) bank_init).
+Proof. intros. unfold mess_ratio. apply scan_no_exit. assumption. Qed.
+Print Assumptions C13_mess_full_scan_when_threshold_not_reached.
